@@ -8,7 +8,8 @@
     measurement; [rematch] stands for regexp matching (any function). The
     number of measurements is [length (fr_units r)]. *)
 From Perf Require Import Base.Bytes Model.Name Model.Extract Model.FilterAst Model.FilterParse
-  Model.ProjParse Model.FilterEval Proofs.FilterEval Proofs.FilterMask Proofs.FilterFixed.
+  Model.ProjParse Model.FilterEval Proofs.FilterEval Proofs.FilterMask Proofs.FilterFixed
+  Model.FilterGrammarSpec Proofs.FilterGrammarSpec.
 
 (** measurement i is matched iff the expression is true of measurement i —
     for every expression tree, every result, every measurement count *)
@@ -289,3 +290,61 @@ Example C06_example :
   /\ match_any 33 (eval (fun _ _ => false) (FNot f) r) = true
   /\ match_all 33 (eval (fun _ _ => false) (FOr [f; FNot f]) r) = true.
 Proof. repeat split; vm_compute; reflexivity. Qed.
+
+(** ** known finding C06_empty_result_answers: results WITHOUT measurements.
+    The theorems above that speak of All / Any / Apply's return value assume
+    n >= 1; for n = 0 the statement "All = every measurement matches, Any =
+    some measurement matches, Apply reports whether any remain" is REFUTED by
+    the faithful model (and by /repo: the cases tagged
+    c06_result_without_measurements).  '*' on an empty result: Any = true and
+    Apply returns true with nothing left; goos:linux on a result that lacks
+    goos: All = false although no measurement fails to match. *)
+Example C06_empty_result_answers_refuted :
+  exists r f g,
+    length (fr_units r) = 0
+    /\ match_any 0 (eval (fun _ _ => false) f r) = true
+    /\ existsb (denote (fun _ _ => false) f r) (seq 0 0) = false
+    /\ match_apply (eval (fun _ _ => false) f r) (@nil nat) = ([], true)
+    /\ match_all 0 (eval (fun _ _ => false) g r) = false
+    /\ forallb (denote (fun _ _ => false) g r) (seq 0 0) = true.
+Proof.
+  exists (mkRes (bs "X") [] []), (FAnd []), (FMatch (bs "goos") (MLit (bs "linux")) 0).
+  vm_compute. repeat split; reflexivity.
+Qed.
+
+(** ** the meaning of an expression TEXT: the documented grammar
+    (Model/FilterGrammarSpec.v: [derives], the "Precise syntax" of go doc
+    benchproc/syntax production by production, with the tree each production
+    denotes).  The judge certifies, per case, the tree on which [denote] is
+    evaluated with the recogniser [grammar_ok]; that check implies the
+    declarative statement: *)
+Theorem C06_grammar_ok_derives :
+  forall is_space re_ok q f,
+  grammar_ok is_space re_ok q f = true -> derives is_space re_ok (length q) q f.
+Proof. exact grammar_ok_derives. Qed.
+Print Assumptions C06_grammar_ok_derives.
+
+(** non-vacuity and precedence: AND (juxtaposition) binds tighter than OR, '-'
+    takes ONE match, parentheses regroup, a value list is a disjunction - and
+    the trees a parser with the opposite precedence / a wide '-' would build
+    are NOT derivable *)
+Example C06_grammar_precedence :
+  let ok q f := grammar_ok Rune.go_is_space (fun _ => true) q f in
+  let m k v o := FMatch k (MLit v) o in
+  ok (bs "a:1 b:2 OR c:3") (FOr [FAnd [m (bs "a") (bs "1") 0; m (bs "b") (bs "2") 4]; m (bs "c") (bs "3") 11]) = true
+  /\ ok (bs "a:1 b:2 OR c:3") (FAnd [m (bs "a") (bs "1") 0; FOr [m (bs "b") (bs "2") 4; m (bs "c") (bs "3") 11]]) = false
+  /\ ok (bs "a:1 OR b:2 AND c:3") (FOr [m (bs "a") (bs "1") 0; FAnd [m (bs "b") (bs "2") 7; m (bs "c") (bs "3") 15]]) = true
+  /\ ok (bs "a:1 OR b:2 AND c:3") (FAnd [FOr [m (bs "a") (bs "1") 0; m (bs "b") (bs "2") 7]; m (bs "c") (bs "3") 15]) = false
+  /\ ok (bs "a:1 (b:2 OR c:3)") (FAnd [m (bs "a") (bs "1") 0; FOr [m (bs "b") (bs "2") 5; m (bs "c") (bs "3") 12]]) = true
+  /\ ok (bs "-a:1 b:2") (FAnd [FNot (m (bs "a") (bs "1") 1); m (bs "b") (bs "2") 5]) = true
+  /\ ok (bs "-a:1 b:2") (FNot (FAnd [m (bs "a") (bs "1") 1; m (bs "b") (bs "2") 5])) = false
+  /\ ok (bs "-(a:1 b:2)") (FNot (FAnd [m (bs "a") (bs "1") 2; m (bs "b") (bs "2") 6])) = true
+  /\ ok (bs "k:(a OR b) *") (FAnd [FOr [m (bs "k") (bs "a") 0; m (bs "k") (bs "b") 0]; FAnd []]) = true
+  /\ ok (bs "k:(a OR b)") (FOr [m (bs "k") (bs "a") 0; m (bs "k") (bs "c") 0]) = false
+  /\ ok (bs "a:1 OR") (m (bs "a") (bs "1") 0) = false
+  (* and on these texts the model of the parser builds the derivable tree *)
+  /\ parse_filter Rune.go_is_space (fun _ => true) (bs "a:1 b:2 OR c:3")
+     = Ok (FOr [FAnd [m (bs "a") (bs "1") 0; m (bs "b") (bs "2") 4]; m (bs "c") (bs "3") 11])
+  /\ parse_filter Rune.go_is_space (fun _ => true) (bs "-a:1 b:2")
+     = Ok (FAnd [FNot (m (bs "a") (bs "1") 1); m (bs "b") (bs "2") 5]).
+Proof. vm_compute. repeat split; reflexivity. Qed.
